@@ -14,6 +14,7 @@ fn base(prop: &'static str) -> Cfg {
         drop_limit: false,
         max_len: 4,
         max_limit: 5,
+        limit_values: vec![],
         obs_init: 2,
         direct: false,
         via_adapter: false,
@@ -126,6 +127,22 @@ fn plans(prop: &str, tier: &str) -> Vec<Plan> {
                 c.max_limit = 4;
             }
             out.push(Plan { name: "c09-drops-reduced", cfgs, depth: if q { 4 } else { 5 } });
+            // larger vectors and limits
+            let mut kinds = Vec::new();
+            for l in [Lim::Static(3), Lim::Static(6), Lim::Dyn(LimSrc::Obs), Lim::DynInit(5, LimSrc::Queue), Lim::DynInit(7, LimSrc::Obs)] {
+                kinds.extend(hts(l));
+            }
+            let mut cfgs = Vec::new();
+            for &kind in &kinds {
+                for batched in fl {
+                    for init_len in [5usize, 7] {
+                        for capacity in [16usize, 2] {
+                            cfgs.push(Cfg { stages: vec![kind], batched, init: vec![0; init_len], nkeys: 1, capacity, alphabet: Alphabet::Large, max_len: 9, limit_values: vec![0, 2, 6, 8], policy: Policy::Manual, ..base("C09") });
+                        }
+                    }
+                }
+            }
+            out.push(Plan { name: "c09-large", cfgs, depth: if q { 3 } else { 4 } });
         }
         "C10" => {
             let cfgs = single_stage_cfgs("C10", &[StageKind::Filter, StageKind::FilterMap], 2, 3, &[16, 1], &both, &fl);
@@ -136,6 +153,17 @@ fn plans(prop: &str, tier: &str) -> Vec<Plan> {
                 c.drop_vec = true;
             }
             out.push(Plan { name: "c10-lag-reduced", cfgs, depth: if q { 5 } else { 6 } });
+            let mut cfgs = Vec::new();
+            for kind in [StageKind::Filter, StageKind::FilterMap] {
+                for batched in fl {
+                    for init in [vec![1u8, 0, 1, 1, 0, 0, 1], vec![0, 0, 1, 0, 1, 0], vec![1, 1, 1, 0, 0]] {
+                        for capacity in [16usize, 2] {
+                            cfgs.push(Cfg { stages: vec![kind], batched, init: init.clone(), nkeys: 2, capacity, alphabet: Alphabet::Large, max_len: 9, policy: Policy::Manual, ..base("C10") });
+                        }
+                    }
+                }
+            }
+            out.push(Plan { name: "c10-large", cfgs, depth: if q { 3 } else { 4 } });
         }
         "C11" => {
             let kinds = [StageKind::Sort, StageKind::SortBy, StageKind::SortByKey];
@@ -147,6 +175,17 @@ fn plans(prop: &str, tier: &str) -> Vec<Plan> {
                 c.drop_vec = true;
             }
             out.push(Plan { name: "c11-lag-reduced", cfgs, depth: if q { 4 } else { 5 } });
+            let mut cfgs = Vec::new();
+            for kind in kinds {
+                for batched in fl {
+                    for init in [vec![2u8, 0, 1, 1, 0, 2, 1], vec![0, 1, 2, 0, 1, 2], vec![2, 2, 1, 0, 0]] {
+                        for capacity in [16usize, 2] {
+                            cfgs.push(Cfg { stages: vec![kind], batched, init: init.clone(), nkeys: 3, capacity, alphabet: Alphabet::Large, max_len: 9, policy: Policy::Manual, ..base("C11") });
+                        }
+                    }
+                }
+            }
+            out.push(Plan { name: "c11-large", cfgs, depth: if q { 3 } else { 4 } });
         }
         "C12" => {
             let menu = chain_menu();
